@@ -3,7 +3,7 @@ from lib import core, propgen
 
 ID = 'C09'
 UNITS = ['chord_cmp', 'chord_label', 'key_score', 'chord_segmentation', 'chord_evaluate', 'melody_metrics', 'melody_resample', 'multipitch_metrics', 'note_matching']
-TRANSLATORS = ['chordre', 'tables', 'scalarfuncs', 'wrapfuncs', 'chordparse']
+TRANSLATORS = ['chordre', 'tables', 'scalarfuncs', 'wrapfuncs', 'chordparse', 'framefuncs']
 NOT_COVERED = ('frequency scaling by factors other than whole octaves rests on log2 algebra outside the exact model (the Hz->cents/MIDI '
                'conversion sits before the modelled metric functions: the theorems are stated on cents / MIDI numbers, i.e. for additive shifts)')
 ASSUMPTIONS = ['NumPy elementwise semantics as modelled in ChordCmp; key strings restricted to the finite domain stated in the key theorems']
